@@ -53,6 +53,9 @@ def plan(tier):
     p.append((S.G1(params={"unset_mode_vm2": "fi", "max_tries": 2}).variant("/unset_mode_vm2=fi,mt=2"), 1 if q else 2, 2))
     p.append((S.G1(params={"unset_mode": "fi"}).variant("/unset_mode=fi"), 0 if q else 1, 1))
     p.append((S.G1(params={"unset_mode_images_vm2": "ri"}).variant("/unset_mode_images_vm2=ri"), 0 if q else 1, 1))
+    # configuration matrix: worker kinds x reuse scopes x slot bindings on the removable chain (setup in the shared pool)
+    p += S.config_matrix(lambda nets, **kw: GG(nets, shared=v1 + v2, **kw), tier, k_quick=0, k_thorough=1)
+    p += S.config_matrix(lambda nets, **kw: GG(nets, lazy=False, shared=v1 + v2, **kw), tier, k_quick=0, k_thorough=1)
     # setup that is not marked for removal must stay whatever happens (plain chains)
     p.append((S.T2(), 1 if q else 2, 1))
     p.append((S.T3(), 1, 1))
